@@ -103,6 +103,7 @@ func init() {
 	register("C07", "N-RESTORE", ruleNRestore)
 	register("C07", "N-PEER", ruleNPeer)
 	register("C07", "C07-SC", ruleShortCircuit)
+	register("C07", "B-PRIM", ruleBPrim)
 
 	register("C17", "G-PAIR", ruleGPair)
 	register("C17", "G-EXPECT", ruleGExpect)
